@@ -8,8 +8,8 @@ import (
 	"strings"
 	"time"
 
-	saoapp "github.com/SaoNetwork/sao/app"
 	didkey "github.com/SaoNetwork/sao-did/key"
+	saoapp "github.com/SaoNetwork/sao/app"
 	nodetypes "github.com/SaoNetwork/sao/x/node/types"
 	"github.com/cosmos/cosmos-sdk/client/tx"
 	codectypes "github.com/cosmos/cosmos-sdk/codec/types"
@@ -109,30 +109,30 @@ type NodeParams struct {
 
 // Config is the per-run configuration; it is part of the trace (replay needs nothing else).
 type Config struct {
-	Seed        uint64     `json:"seed"`
-	Profile     string     `json:"profile"`
-	NOwners     int        `json:"owners"`
-	NSponsors   int        `json:"sponsors"`
-	NGateways   int        `json:"gateways"`
-	NSPs        int        `json:"sps"`
-	NFishmen    int        `json:"fishmen"`
-	NValidators int        `json:"validators"`
-	NDelegators int        `json:"delegators"`
-	NAdv        int        `json:"adversaries"`
-	Node        NodeParams `json:"node"`
-	UnbondingS  int64      `json:"unbonding_s"`
-	PoorSPs     []int      `json:"poor_sps,omitempty"`   // SP indices funded just enough for capacity
-	PoorOwners  []int      `json:"poor_owners,omitempty"` // owner indices with small balance
-	LowRepSPs   []int      `json:"lowrep_sps,omitempty"`  // SPs written into genesis with reputation below floor
-	SignedBlocksWindow int64 `json:"signed_blocks_window"`
+	Seed               uint64     `json:"seed"`
+	Profile            string     `json:"profile"`
+	NOwners            int        `json:"owners"`
+	NSponsors          int        `json:"sponsors"`
+	NGateways          int        `json:"gateways"`
+	NSPs               int        `json:"sps"`
+	NFishmen           int        `json:"fishmen"`
+	NValidators        int        `json:"validators"`
+	NDelegators        int        `json:"delegators"`
+	NAdv               int        `json:"adversaries"`
+	Node               NodeParams `json:"node"`
+	UnbondingS         int64      `json:"unbonding_s"`
+	PoorSPs            []int      `json:"poor_sps,omitempty"`    // SP indices funded just enough for capacity
+	PoorOwners         []int      `json:"poor_owners,omitempty"` // owner indices with small balance
+	LowRepSPs          []int      `json:"lowrep_sps,omitempty"`  // SPs written into genesis with reputation below floor
+	SignedBlocksWindow int64      `json:"signed_blocks_window"`
 }
 
 // World is the harness-side knowledge of a run.
 type World struct {
-	Cfg    Config
-	Actors []*Actor
-	ByAddr map[string]*Actor
-	ByDid  map[string]*Actor
+	Cfg                                                                    Config
+	Actors                                                                 []*Actor
+	ByAddr                                                                 map[string]*Actor
+	ByDid                                                                  map[string]*Actor
 	Owners, Sponsors, Gateways, SPs, Fishmen, Validators, Delegators, Advs []*Actor
 }
 
